@@ -153,12 +153,9 @@ func (r *Reconciler) Reconcile(ctx context.Context, req reconcile.Request) (reco
 		return reconcile.Result{}, errors.Wrap(err, errListRevs)
 	}
 
-	var latestRev, existingRev int64
-
-	if lr := v1.LatestRevision(comp, rl.Items); lr != nil {
-		latestRev = lr.Spec.Revision
-	}
-
+	// Adopt revisions that lost their controller reference before we look
+	// for the latest revision: LatestRevision only considers revisions that
+	// are controlled by the Composition.
 	for i := range rl.Items {
 		rev := &rl.Items[i]
 
@@ -180,6 +177,16 @@ func (r *Reconciler) Reconcile(ctx context.Context, req reconcile.Request) (reco
 				return reconcile.Result{}, errors.Wrap(err, errOwnRev)
 			}
 		}
+	}
+
+	var latestRev, existingRev int64
+
+	if lr := v1.LatestRevision(comp, rl.Items); lr != nil {
+		latestRev = lr.Spec.Revision
+	}
+
+	for i := range rl.Items {
+		rev := &rl.Items[i]
 
 		// This revision does not match our current Composition.
 		if rev.GetLabels()[v1.LabelCompositionHash] != currentHash[:63] {
